@@ -146,7 +146,8 @@ func main() {
 		// a stage lemma was refuted: look for an end-to-end, natively replayable counterexample
 		fmt.Println("[symgo] stage lemma refuted: running the end-to-end fallback harnesses to obtain a replayable counterexample")
 		save := opts.BudgetsMs
-		opts.BudgetsMs = []int{30000}
+		opts.BudgetsMs = []int{15000}
+		opts.HarnessTimeS = 120
 		for _, h := range hs {
 			if !strings.Contains(h.Name(), "_FB_") {
 				continue
@@ -165,6 +166,7 @@ func main() {
 			results = append(results, hr)
 		}
 		opts.BudgetsMs = save
+		opts.HarnessTimeS = 0
 	}
 	code := report(*prop, *tier, *seed, results, kf, *out, time.Since(t0).Seconds(), eng)
 	os.Exit(code)
